@@ -132,6 +132,10 @@ def run(ch: Checker) -> None:
             if fv:
                 names.add('%s[0]' % fv)
                 values.add('%s[1]' % fv)
+            ve = di.get('value_elts')
+            if ve and len(ve) == 2 and ve[0] and ve[1]:     # for k, (name, value) in self.headers.items()
+                names.add(ve[0])
+                values.add(ve[1])
             if norm(comp.key) not in names:
                 res['hname'] = 'header names are rebuilt as %s, not the original spelling (%s)' % (norm(comp.key)[:60], ' / '.join(sorted(names)))
             val = comp.value
